@@ -12,6 +12,11 @@ mkdir -p $DST
 for f in patch.diff demo.cpp run_demo.sh notes.md; do [ -f $OUT/$f ] && [ ! -f $DST/$f ] && cp $OUT/$f $DST/; done   # files already taken over (e.g. a patch rebased onto a later hook commit) are kept
 cp $OUT/*.h $OUT/*.hpp $DST/ 2>/dev/null
 LOG=$DST/confirm.log; : > $LOG
+# the confirm worktree is scratch: (re)create it when it is missing (first build of all tests takes a while)
+if [ ! -d $C/.git ] && [ ! -f $C/.git ]; then
+  git -C /repo worktree prune; git -C /repo worktree add --detach -q $C HEAD || exit 2
+  (cd $C && cmake -G Ninja -B _build -DCMAKE_BUILD_TYPE=RelWithDebInfo -DTBB_TEST=ON . > /dev/null) || exit 2
+fi
 git -C $C checkout -q -- . ; git -C $C clean -fdq -e _build
 if ! git -C $C apply --check $DST/patch.diff 2>>$LOG; then echo "PATCH DOES NOT APPLY" | tee -a $LOG; exit 2; fi
 git -C $C apply $DST/patch.diff
